@@ -99,8 +99,8 @@ def vectors(rng, ms):
     return bfs, vecs
 
 
-def cpp_prog(ms, bfs, vecs):
-    out = ['#include <stdio.h>', '#include <string.h>', '#include "t.hpp"', "typedef R<int> RI;",
+def cpp_prog(ms, bfs, vecs, inst="R<int>"):
+    out = ['#include <stdio.h>', '#include <string.h>', '#include "t.hpp"', "typedef %s RI;" % inst,
            "static void dump(const RI *r) { const unsigned char *p = (const unsigned char *)r; for (unsigned i = 0; i < sizeof(RI); i++) printf(\"%02x\", p[i]); printf(\"\\n\"); }",
            "int main() {", '  printf("SIZE %zu %zu\\n", sizeof(RI), alignof(RI));']
     for vi, vec in enumerate(vecs):
@@ -157,10 +157,37 @@ REPRO = [
 ]
 
 
-def case(chk, i, fixed=None):
-    rng = chk.rng("tmpl", i)
-    ms = gen(rng)
+def header_derived(rng, ms):
+    """non-template C++ struct R with base classes (empty, small, 8-aligned, polymorphic) in front of its members and bit-field runs"""
+    pool = [("Tag", "struct Tag {};"), ("Tag2", "struct Tag2 {};"), ("B1", "struct B1 { char x1; };"), ("B2", "struct B2 { short x2; char y2; };"),
+            ("B8", "struct B8 { double d8; };"), ("BV", "struct BV { long lv; virtual void vf() {} };"), ("BB", "struct BB { unsigned bb0 : 3; unsigned bb1 : 7; };")]
+    bases = rng.sample(pool, rng.randint(1, 3))
+    if sum(1 for b in bases if b[0] == "BV") and bases[0][0] != "BV":
+        bases = [b for b in bases if b[0] == "BV"] + [b for b in bases if b[0] != "BV"]      # keep the dynamic base first (recorded C02 finding otherwise)
+    body = []
+    for m in ms:
+        if m[0] == "sep":
+            body.append("  %s : 0;" % m[1])
+        elif m[0] == "plain":
+            body.append("  %s %s;" % (m[2], m[1]))
+        elif m[0] == "bf":
+            body.append("  %s %s : %d;" % (m[2], m[1], m[5]))
+    return "\n".join(b[1] for b in bases) + "\nstruct R : %s {\n%s\n};\n" % (", ".join(b[0] for b in bases), "\n".join(body)), [b[0] for b in bases]
+
+
+def case(chk, i, fixed=None, derived=False):
+    rng = chk.rng("tmpl" if not derived else "derived", i)
+    ms = gen(rng, uniform=not derived)
+    if derived and rng.random() < 0.7:
+        # mostly unsigned fields (getters of signed fields are a recorded finding and would dominate the counts)
+        ms = [(m[0], m[1], m[2] if not m[4] else {"int": "unsigned int", "signed char": "unsigned char", "short": "unsigned short", "long long": "unsigned long long"}[m[2]], m[3], False, m[5])
+              if m[0] == "bf" else m for m in ms]
     packed = rng.random() < 0.15
+    if derived:
+        ms = [m for m in ms if m[0] != "dep"]
+        if ms and ms[0][0] == "bf" and rng.random() < 0.5:
+            ms.insert(0, ("plain", "lead", rng.choice(["unsigned char", "char", "short"])))
+        packed = False
     if fixed is not None:
         ms, packed = fixed[1], False
     # packed runs wider than 64 bits are the recorded unit-span-over-64 finding (C03 part a/b own it): keep them out of this family
@@ -176,11 +203,14 @@ def case(chk, i, fixed=None):
             os.unlink(os.path.join(d, f))
         except OSError:
             pass
-    name = "tmpl-%d" % i if fixed is None else fixed[0]
-    text = header(ms, packed)
+    name = ("tmpl-%d" % i if not derived else "derived-%d" % i) if fixed is None else fixed[0]
+    if derived:
+        text, base_names = header_derived(rng, ms)
+    else:
+        text = header(ms, packed)
     hdr = write(os.path.join(d, "t.hpp"), text)
     bfs, vecs = vectors(rng, ms)
-    cpp = write(os.path.join(d, "p.cpp"), cpp_prog(ms, bfs, vecs))
+    cpp = write(os.path.join(d, "p.cpp"), cpp_prog(ms, bfs, vecs, inst="R" if derived else "R<int>"))
     rc, so, se, _ = sh(["clang++", "-std=c++14", "-w", "-O0", cpp, "-o", os.path.join(d, "p"), "-I", d], timeout=120)
     if rc != 0:
         return Verdict(INCONCLUSIVE, name, "clang++ rejects the generated template: " + se[:400])
@@ -271,4 +301,5 @@ def case(chk, i, fixed=None):
 
 def run_c(chk):
     chk.map(lambda i: case(chk, i), range(chk.pick(24, 400)), budget_s=chk.pick(300, 1500))
+    chk.map(lambda i: case(chk, i, derived=True), range(chk.pick(40, 500)), budget_s=chk.pick(300, 1500))
     chk.map(lambda t: case(chk, 10 ** 6 + t[0], fixed=t[1]), list(enumerate(REPRO)))
